@@ -13,15 +13,15 @@ namespace Hal
 
 theorem zeroP_length (n : Nat) : (zeroP n).length = n := by simp [zeroP]
 
-theorem polyAdd_zero_left (n : Nat) (a : Poly) (h : a.length = n) : polyAdd (zeroP n) a = a := by
+theorem ep_polyAdd_zero_left (n : Nat) (a : Poly) (h : a.length = n) : polyAdd (zeroP n) a = a := by
   subst h
   unfold polyAdd zeroP
   induction a with
   | nil => rfl
   | cons x xs ih => simp [List.replicate_succ, ih]
 
-theorem polyAdd_zero_right (n : Nat) (a : Poly) (h : a.length = n) : polyAdd a (zeroP n) = a := by
-  rw [polyAdd_comm]; exact polyAdd_zero_left n a h
+theorem ep_polyAdd_zero_right (n : Nat) (a : Poly) (h : a.length = n) : polyAdd a (zeroP n) = a := by
+  rw [polyAdd_comm]; exact ep_polyAdd_zero_left n a h
 
 theorem polyScale_scale (c d : Int) (a : Poly) : polyScale c (polyScale d a) = polyScale d (polyScale c a) := by
   unfold polyScale
@@ -31,10 +31,10 @@ theorem polyScale_scale (c d : Int) (a : Poly) : polyScale c (polyScale d a) = p
   simp only [Function.comp]
   rw [← Int.mul_assoc, ← Int.mul_assoc, Int.mul_comm c d]
 
-theorem polyScale_zeroP (c : Int) (n : Nat) : polyScale c (zeroP n) = zeroP n := by
+theorem ep_polyScale_zeroP (c : Int) (n : Nat) : polyScale c (zeroP n) = zeroP n := by
   simp [polyScale, zeroP]
 
-theorem mulX_scale (c : Int) (a : Poly) : mulX (polyScale c a) = polyScale c (mulX a) := by
+theorem ep_mulX_scale (c : Int) (a : Poly) : mulX (polyScale c a) = polyScale c (mulX a) := by
   rcases List.eq_nil_or_concat a with rfl | ⟨a', x, rfl⟩
   · simp [mulX, polyScale]
   · simp only [List.concat_eq_append]
@@ -42,14 +42,14 @@ theorem mulX_scale (c : Int) (a : Poly) : mulX (polyScale c a) = polyScale c (mu
     rw [e, mulX_append_one, mulX_append_one]
     simp [polyScale, Int.mul_neg]
 
-theorem negMul_scale_right (a : Poly) (c : Int) (x : Poly) : negMul a (polyScale c x) = polyScale c (negMul a x) := by
+theorem ep_negMul_scale_right (a : Poly) (c : Int) (x : Poly) : negMul a (polyScale c x) = polyScale c (negMul a x) := by
   induction a with
   | nil => simp [negMul, polyScale]
   | cons a0 as ih =>
     simp only [negMul]
-    rw [ih, mulX_scale, polyScale_add, polyScale_scale]
+    rw [ih, ep_mulX_scale, polyScale_add, polyScale_scale]
 
-theorem negMul_mulX_right (a : Poly) (x : Poly) : negMul a (mulX x) = mulX (negMul a x) := by
+theorem ep_negMul_mulX_right (a : Poly) (x : Poly) : negMul a (mulX x) = mulX (negMul a x) := by
   induction a with
   | nil =>
     simp only [negMul]
@@ -62,7 +62,7 @@ theorem negMul_mulX_right (a : Poly) (x : Poly) : negMul a (mulX x) = mulX (negM
       simp
   | cons a0 as ih =>
     simp only [negMul]
-    rw [ih, mulX_add _ _ (by rw [polyScale_length, mulX_length, negMul_length]), mulX_scale]
+    rw [ih, mulX_add _ _ (by rw [polyScale_length, mulX_length, negMul_length]), ep_mulX_scale]
 
 /-- multiplication operators commute: `a ⋆ (b ⋆ x) = b ⋆ (a ⋆ x)` -/
 theorem negMul_negMul_comm (a b x : Poly) : negMul a (negMul b x) = negMul b (negMul a x) := by
@@ -83,7 +83,7 @@ theorem negMul_negMul_comm (a b x : Poly) : negMul a (negMul b x) = negMul b (ne
   | cons a0 as ih =>
     simp only [negMul]
     rw [ih, negMul_add_right _ _ _ (by rw [polyScale_length, mulX_length, negMul_length]),
-      negMul_scale_right, negMul_mulX_right]
+      ep_negMul_scale_right, ep_negMul_mulX_right]
 
 /-- `Σ_{i<k} f i`, the fold the HAL model uses -/
 def sumR (n : Nat) (f : Nat → Poly) (k : Nat) : Poly := sumPolys n ((List.range k).map f)
@@ -117,7 +117,7 @@ theorem negMul_sumR (n : Nat) (p : Poly) (f : Nat → Poly) (k : Nat) (hf : ∀ 
 theorem polyScale_sumR (n : Nat) (c : Int) (f : Nat → Poly) (k : Nat) :
     polyScale c (sumR n f k) = sumR n (fun i => polyScale c (f i)) k := by
   induction k with
-  | zero => simp [sumR_zero, polyScale_zeroP]
+  | zero => simp [sumR_zero, ep_polyScale_zeroP]
   | succ k ih => rw [sumR_succ, sumR_succ, polyScale_add, ih]
 
 /-- sums are additive -/
